@@ -66,6 +66,8 @@ def cases1d(draw):
     q = sorted(set(S.sig(draw(st.floats(0.01, 0.3)), 4) for _ in range(n)))
     qmin = min(q)
     cross = geom == "pinhole" and draw(st.integers(0, 3)) == 0
+    # slit width larger than q: the part of the window beyond the beam centre is folded back (I(|q+v|))
+    fold = geom in ("slitW", "slitLW") and draw(st.integers(0, 3)) == 0
     w1, w2 = [], []
     for v in q:
         frac = draw(st.floats(0.02, 0.3))
@@ -78,11 +80,13 @@ def cases1d(draw):
         elif geom == "slitL":
             w1.append(S.sig(draw(st.floats(0.3, 3.0)) * v, 4))
         elif geom == "slitW":
-            w1.append(S.sig(min(frac * v, 0.85 * (v - 0.1 * qmin)), 4))
+            w1.append(S.sig(v * draw(st.floats(1.05, 1.8)), 4) if fold else
+                      S.sig(min(frac * v, 0.85 * (v - 0.1 * qmin)), 4))
         else:
             w1.append(S.sig(draw(st.floats(0.3, 3.0)) * v, 4))             # L
-            w2.append(S.sig(min(frac * v, 0.85 * (v - 0.1 * qmin)), 4))    # W
-    return {"geom": geom, "f": draw(fspec(smooth=cross)), "q": q, "w1": w1, "w2": w2, "cross": cross,
+            w2.append(S.sig(v * draw(st.floats(1.05, 1.8)), 4) if fold else
+                      S.sig(min(frac * v, 0.85 * (v - 0.1 * qmin)), 4))    # W
+    return {"geom": geom, "f": draw(fspec(smooth=cross or fold)), "q": q, "w1": w1, "w2": w2, "cross": cross, "fold": fold,
             "hdiv": draw(st.sampled_from([10, 20, 40])), "offset": S.sig(draw(st.sampled_from([0.5, 0.5, 0.13, 0.77])), 3)}
 
 
@@ -112,7 +116,7 @@ def exact1d(geom, f, q0, a, b=None, cut=0.0):
     if geom == "slitL":
         return integrate.quad(lambda u: f(math.sqrt(q0 * q0 + u * u)), 0, a, **kw)[0] / a
     if geom == "slitW":
-        return integrate.quad(lambda v: f(abs(q0 + v)), -a, a, **kw)[0] / (2 * a)
+        return integrate.quad(lambda v: f(abs(q0 + v)), -a, a, points=[-q0] if a > q0 else None, **kw)[0] / (2 * a)
     raise ValueError(geom)
 
 
@@ -126,7 +130,7 @@ def check_1d(case, rec):
     w2 = np.array(case["w2"], float) if case["w2"] else np.zeros_like(w1)
     lo, hi, wmin = _window(geom, q, w1, w2)
     h0 = float(np.min(wmin)) / case["hdiv"]
-    if case.get("cross"):
+    if case.get("cross") or case.get("fold"):
         h0 /= 6.0          # the window contains q ~ 0 where the test functions vary on the scale 1/k << sigma
     spec = case["f"]
     kf = {"poly": math.sqrt(spec["c"][2] / spec["c"][0]) if spec["kind"] == "poly" else 0.0,
@@ -135,6 +139,8 @@ def check_1d(case, rec):
     # exact values
     if case.get("cross"):
         rec.cls("pinhole-window-crosses-zero")
+    if case.get("fold"):
+        rec.cls("slit-width-folds-over-zero")
     if geom in ("pinhole", "slitL", "slitW"):
         exact = np.array([exact1d(geom, f, a, b, cut=0.02 * q.min()) for a, b in zip(q, w1)])
         exact_semi = None
@@ -147,7 +153,7 @@ def check_1d(case, rec):
                                             epsabs=1e-12, epsrel=1e-9)[0] / (2 * w * L) for a, L, w in zip(q, w1, w2)])
     unsm = f(q)
     shift = np.max(np.abs(exact / unsm - 1.0))
-    errs = []
+    errs, first_edges = [], []
     for level in (0, 1, 2):
         h = h0 / 2 ** level
         start = max(float(np.min(lo)) - 4 * h0, 0.03 * q.min())
@@ -155,11 +161,11 @@ def check_1d(case, rec):
         # grid anchored so that refinement keeps the same relative alignment to the first data point
         k0 = math.floor((start - q[0]) / h)
         grid = q[0] + (np.arange(k0, int((stop - q[0]) / h) + 2) + case["offset"] - 0.5) * h
-        if case.get("cross"):
+        if case.get("cross") or case.get("fold"):
             start = float(np.min(lo)) - 4 * h0
             k0 = math.floor((start - q[0]) / h)
             grid = q[0] + (np.arange(k0, int((stop - q[0]) / h) + 2) + case["offset"] - 0.5) * h
-        else:
+        if not case.get("cross"):
             grid = grid[grid > 0]
         if geom == "pinhole":
             R = resolution.Pinhole1D(q, w1, q_calc=grid)
@@ -170,9 +176,23 @@ def check_1d(case, rec):
         else:
             R = resolution.Slit1D(q, q_length=w1, q_width=w2, q_calc=grid)
         errs.append(np.asarray(R.apply(f(np.asarray(R.q_calc, float))), float))
+        qc = np.asarray(R.q_calc, float)
+        first_edges.append(max(qc[0] - 0.5 * (qc[1] - qc[0]), 0.0))
     rec.nontrivial(bool(shift >= 1e-3), case)
     ref = exact_semi if exact_semi is not None else exact
     e = [np.abs(v / ref - 1.0) for v in errs]
+    # Folded windows reach q = 0, but nothing below 0.02 min(q) is ever evaluated (the documented protection,
+    # applied to user grids too) and slit rows are not renormalised: the weight of |q+v| below the first bin
+    # edge is lost.  That is the finding recorded under C03; here the same root cause is told apart from any
+    # other departure by also comparing with the integral that leaves that interval out.
+    fold_alt = None
+    if case.get("fold") and geom == "slitW":
+        fold_alt = []
+        for level in (0, 1, 2):
+            e0 = first_edges[level]
+            alt = np.array([exact - integrate.quad(lambda v: f(abs(v)), -e0, e0)[0] / (2 * b) if b > a else exact
+                            for a, b, exact in zip(q, w1, ref)])
+            fold_alt.append(np.abs(errs[level] / alt - 1.0))
     floor = 1e-9
     # ---- envelope proportional to the spacing (or better) at every level of the ladder
     # constants: 3x the worst value observed over 600 generated cases on the unchanged tree
@@ -187,11 +207,19 @@ def check_1d(case, rec):
             bound = 0.1 * (h / w1) ** 2
         else:
             bound = 0.5 * (h / w1) + 0.1 * (h / w2) ** 2
+        if case.get("fold") and geom == "slitLW":
+            # shifted copies |q + k W/30| that fall below the first bin edge lose (part of) their weight
+            lost = np.array([np.sum(np.abs(a + np.arange(-30, 31) * w / 30.0) < first_edges[level]) / 61.0
+                             for a, w in zip(q, w2)])
+            bound = bound + 2.0 * lost
         # mid-point rule on a function varying on the scale 1/kf: second-order term
         bounds.append(bound + 0.2 * (h * kf) ** 2 + 10 * floor)
         if np.any(e[level] > bounds[-1]):
             j = int(np.argmax(e[level] / bounds[-1]))
-            rec.fail("bound:" + geom, "q=%g widths=%g/%g h=%g (level %d): relative error %.3g > bound %.3g (smeared %r, exact %r)"
+            tag = ""
+            if fold_alt is not None and np.all(fold_alt[level] <= bounds[-1]):
+                tag = ":weight-below-low-q-cutoff-lost"
+            rec.fail("bound:" + geom + tag, "q=%g widths=%g/%g h=%g (level %d): relative error %.3g > bound %.3g (smeared %r, exact %r)"
                      % (q[j], w1[j], w2[j], h, level, e[level][j], bounds[-1][j], errs[level][j], ref[j]))
             break
     while len(bounds) < 3:
